@@ -29,6 +29,7 @@ RULE = ("two point sets: set 1 = 1..8 explicit points (uniform, poles, seam, spe
         "the ra seam / with a pole inside the search circle; or a positive limit smaller than a group. "
         "Distinct = distinct case JSON."
         " The matcher sub-check also widens a cone search step by step around one position on the same Matcher object.")
+RULE += (" " + 'Sub-check long: first lists of 65537..400043 points repeating <= 5 positions, second list of points at 0.1..0.85 and 1.2..3 radii from them, radius 1e-3..1e-2 deg, depth 5..9, HTM.match and Matcher, maxmatch 0/1/2, exact expected arrays from brute force. Sub-check file: one case in three writes the pair file twice to the same path.')
 ASSUMPTIONS = [
     "longitudes in [0,360], latitudes in [-90,90], finite; radii in {0} u [1e-6, 180] degrees",
     "pairs with |sep - radius| <= 1e-9 deg are unconstrained (statement); reported separations are compared "
